@@ -30,13 +30,18 @@ const (
 func verifC19BlocksBody() {
 	// Scenarios: 0 plain (full window enumeration); the others use a reduced enumeration
 	// (at most one transaction per block, filters nil and [A]):
-	// 1 open-ended request, 2 stream context already cancelled, 3.. the k-th Send fails.
-	scen := verifChoice("scenario", 3+verifParam("send_failures", 1))
+	// 1 open-ended request, 2 stream context already cancelled, 3 a single block of up to two
+	// transactions of all six kinds (incl. undecodable bytes / unparsable meta) under all filters,
+	// 4.. the k-th Send fails.
+	scen := verifChoice("scenario", 4+verifParam("send_failures", 1))
 	N := verifParam("max_slots", 2)
 	T := verifParam("max_txs", 2)
 	kinds := verifParam("kinds", 4)
 	nfilters := 5
-	if scen != 0 {
+	switch {
+	case scen == 3:
+		N, T, kinds = 1, 2, int(verifC19BkNumKinds)
+	case scen != 0:
 		N, T, nfilters = verifParam("side_max_slots", 2), 1, 2
 	}
 
@@ -104,8 +109,8 @@ func verifC19BlocksBody() {
 	}
 
 	ser := &verifC19BlockStream{ctx: context.Background(), failAt: -1}
-	if scen >= 3 {
-		ser.failAt = scen - 3
+	if scen >= 4 {
+		ser.failAt = scen - 4
 	}
 	cancelled := scen == 2
 	if cancelled {
